@@ -94,7 +94,16 @@ void (*g_cb_dnsrec)(void *, ares_status_t, size_t, const ares_dns_record_t *) = 
 static void cb_legacy(void *arg, int st, int timeouts, unsigned char *abuf, int alen) {
   CbArg *a = (CbArg *)arg;
   Delivered d;
-  if (abuf && alen > 0) { d.has = true; d.decode_err = dnsref::decode(std::string((const char *)abuf, (size_t)alen), d.msg); }
+  if (abuf && alen > 0) {
+    d.has = true; d.decode_err = dnsref::decode(std::string((const char *)abuf, (size_t)alen), d.msg);
+    if (d.decode_err.find("name longer than 255") != std::string::npos) {
+      // 256/257-octet names (presentation form within the library's 255-character limit): same lenient second pass as at the servers
+      dnsref::g_max_name_octets = 300;
+      d.decode_err = dnsref::decode(std::string((const char *)abuf, (size_t)alen), d.msg);
+      dnsref::g_max_name_octets = 255;
+      W.bump("legacy_buffer_name_over_255_octets");
+    }
+  }
   a->run->complete(a->token, st, timeouts, d);
 }
 static void cb_addrinfo(void *arg, int st, int timeouts, struct ares_addrinfo *ai) {
@@ -299,7 +308,7 @@ bool Run::make_channel(int idx) {
     if (na < 1) na = 1;
     for (int i = 0; i < (int)cfg.servers.size() && i < na; i++) active.push_back(i);
     max_active = (int)active.size();
-    active_hist.push_back({W.seq, active});
+    { ActiveEv ae; ae.seq = W.seq; ae.list = active; ae.end_seq = W.seq; active_hist.push_back(ae); }
   }
   if (cfg.server_source == 0 && !cfg.servers.empty()) {
     W.api_seq++;
@@ -350,9 +359,19 @@ void Run::set_servers_variant(int variant) {
   W.api_seq++;
   std::string csv = servers_csv(cfg.servers, nw);
   // queries of a server being removed are re-sent from inside the call, when the new list is already in force
-  active_hist.push_back({W.seq, nw});
+  { ActiveEv ae; ae.seq = W.seq; ae.list = nw; active_hist.push_back(ae); }
+  size_t hist_at = active_hist.size() - 1;
   int rc = ares_set_servers_ports_csv(c.ch, csv.c_str());
-  if (rc != ARES_SUCCESS) active_hist.push_back({W.seq, active});
+  active_hist[hist_at].end_seq = W.seq;
+  if (rc == ARES_SUCCESS) {
+    // what the library now reports as configured (read-only public accessor)
+    char *got = ares_get_servers_csv(c.ch);
+    active_hist[hist_at].applied = true;
+    active_hist[hist_at].got_csv = got ? got : "";
+    if (got) ares_free_string(got);
+  }
+  if (getenv("SIM_DBG_C09")) fprintf(stderr, "C09 set_servers '%s' rc=%d t=%lld seq=%u\n", csv.c_str(), rc, (long long)W.now_us, W.seq);
+  if (rc != ARES_SUCCESS) { ActiveEv ae; ae.seq = W.seq; ae.list = active; ae.end_seq = W.seq; active_hist.push_back(ae); }
   note(changed ? "set_servers_changed" : "set_servers_same");
   W.mix_shape(0x5E70 + (changed ? 1 : 0));
   if (rc == ARES_SUCCESS) {
